@@ -13,7 +13,7 @@
      crates/emmylua_ls/src/context/mod.rs             ServerContext::task / cancel
 
    The server is one main loop that handles one client message at a time (the actions named SrvRecv, SrvDrain)
-   plus one task per dispatched request (TaskFinish / TaskPanic) plus the initialization task
+   plus one task per dispatched request (TaskRespond / TaskPanic, then TaskRemove) plus the initialization task
    (InitDone).  The client (ClientSend) follows the LSP life cycle only as far as the server depends on
    it: request ids are fresh, initialized follows the initialize answer, nothing follows exit.
 
@@ -24,7 +24,22 @@
    is evaluated separately on it.
 
    Dead code not modelled: ServerContext::task's "res.is_none() -> InternalError" branch is only
-   reachable through the panic path (dispatch_request! always returns Some(response)).           *)
+   reachable through the panic path (dispatch_request! always returns Some(response)).
+
+   Granularity of ServerContext::task / cancel (the steps are the real critical sections):
+     main loop   DispatchOk      lock(cancellations); insert token; unlock; spawn the wrapper task
+     task        (handler)       the handler future, any number of server-state lock sections
+     task        TaskRespond /   cancel_token.is_cancelled() ? RequestCanceled : result -> sender.send
+                 TaskPanic       (no lock, no await between the check and the send)
+     task        TaskRemove      lock(cancellations); remove the entry; unlock
+     main loop   Cancel          lock(cancellations); get; token.cancel(); unlock
+   The main loop can therefore handle any number of client messages -- in particular $/cancelRequest
+   for that very id -- between TaskRespond and TaskRemove: the entry is still registered although the
+   id has been answered (st = "responded").  CancelDesign tells what `cancel` does with an entry it
+   finds: "flag" only cancels the token (the task answers RequestCanceled when it ends: pinned tree);
+   "answer" answers RequestCanceled itself, removes the entry, and the task returns silently when it
+   finds its token cancelled (a design proposed in review: LsProtocol_cancelanswer.cfg shows the id
+   that is answered twice).                                                                      *)
 EXTENDS Naturals, Sequences, FiniteSets, TLC, Json
 
 CONSTANTS
@@ -36,6 +51,7 @@ CONSTANTS
   Panic,         \* subset of {"silent", "error"} handler future panics inside ServerContext::task
   BadInit,       \* subset of {"die", "error"}    initialize params do not deserialize in run_ls
   PostShutdown,  \* subset of {"die", "error"}    a message other than exit after shutdown
+  CancelDesign,  \* "flag" | "answer"             what ServerContext::cancel does with a registered entry
   SyncWire       \* TRUE: a message is read by the server before anything else happens (the in-process
                  \* session delivers synchronously); FALSE: messages may queue on the wire (stdio)
 
@@ -51,7 +67,8 @@ VARIABLES
   wire,       \* client -> server messages not yet read by the server (FIFO)
   nmsg, nreq, \* messages / requests sent so far
   pending,    \* messages queued while the init task runs
-  st,         \* id -> "unseen" | "sent" | "queued" | "running" | "done"
+  st,         \* id -> "unseen" | "sent" | "queued" | "running" | "responded" | "done"
+              \*       ("responded": answer sent, wrapper task about to lock the cancellation map)
   outcome,    \* id -> what the handler of a running request will do: "ok" | "panic"
   tokens,     \* ids registered in ServerContext::cancellations
   cancelled,  \* ids whose CancellationToken has been cancelled
@@ -140,11 +157,19 @@ DispatchUnknown(m) ==
   /\ How(m.id, "unknown-method")
   /\ UNCHANGED <<phase, outcome, tokens, cancelled>>
 
-\* $/cancelRequest: cancel the token if (and only if) one is registered
+\* $/cancelRequest (ServerContext::cancel, one critical section of the cancellation map): cancel the
+\* token if (and only if) one is registered -- which is the case from DispatchOk until TaskRemove
 Cancel(m) ==
   /\ m.k = "cancel"
-  /\ cancelled' = IF m.id \in tokens THEN cancelled \cup {m.id} ELSE cancelled
-  /\ UNCHANGED <<phase, st, outcome, tokens, resp, how>>
+  /\ UNCHANGED <<phase, st, outcome>>
+  /\ IF m.id \in tokens
+       THEN /\ cancelled' = cancelled \cup {m.id}
+            /\ IF CancelDesign = "answer"
+                 THEN /\ tokens' = tokens \ {m.id}
+                      /\ Respond(m.id, ErrCancelled)
+                      /\ How(m.id, IF st[m.id] = "responded" THEN "cancel-answer-after-result" ELSE "cancel-answer")
+                 ELSE UNCHANGED <<tokens, resp, how>>
+       ELSE UNCHANGED <<tokens, cancelled, resp, how>>
 
 \* other notifications (handled inline or in a spawned task, never answered), client responses
 Ignore(m) ==
@@ -264,26 +289,42 @@ SrvDrain ==
    ends when the last sender clone is dropped) but not "dead" *)
 Alive == phase # "dead"
 
-TaskFinish(id) ==
+\* the handler future has completed: is_cancelled() check and send (no lock, no await in between)
+TaskRespond(id) ==
   /\ Alive /\ Settled /\ st[id] = "running" /\ outcome[id] \in {"ok", "any"}
-  /\ Respond(id, IF id \in cancelled THEN ErrCancelled ELSE OK)
-  /\ How(id, IF id \in cancelled THEN "finish-cancelled" ELSE "finish")
-  /\ st' = [st EXCEPT ![id] = "done"]
-  /\ tokens' = tokens \ {id}
-  /\ Log([a |-> "TaskFinish", id |-> id])
-  /\ UNCHANGED <<phase, cstate, wire, nmsg, nreq, pending, outcome, cancelled>>
+  /\ IF CancelDesign = "answer" /\ id \in cancelled
+       THEN /\ st' = [st EXCEPT ![id] = "done"]             \* `cancel` has answered and removed the entry
+            /\ UNCHANGED <<resp, how>>
+       ELSE /\ Respond(id, IF id \in cancelled THEN ErrCancelled ELSE OK)
+            /\ How(id, IF id \in cancelled THEN "finish-cancelled" ELSE "finish")
+            /\ st' = [st EXCEPT ![id] = "responded"]
+  /\ Log([a |-> "TaskRespond", id |-> id])
+  /\ UNCHANGED <<phase, cstate, wire, nmsg, nreq, pending, outcome, tokens, cancelled>>
 
+\* the handler future panicked (JoinError observed by the wrapper task)
 TaskPanic(id, mode) ==
   /\ Alive /\ Settled /\ st[id] = "running" /\ outcome[id] \in {"panic", "any"}
   /\ mode \in Panic
-  /\ st' = [st EXCEPT ![id] = "done"]
-  /\ How(id, "panic-" \o mode)
   /\ IF mode = "error"
-       THEN /\ Respond(id, IF id \in cancelled THEN ErrCancelled ELSE ErrInternal)
-            /\ tokens' = tokens \ {id}
-       ELSE UNCHANGED <<resp, tokens>>                  \* the task is gone; its entry leaks
+       THEN IF CancelDesign = "answer" /\ id \in cancelled
+              THEN /\ st' = [st EXCEPT ![id] = "done"]
+                   /\ UNCHANGED <<resp, how>>
+              ELSE /\ Respond(id, IF id \in cancelled THEN ErrCancelled ELSE ErrInternal)
+                   /\ How(id, "panic-error")
+                   /\ st' = [st EXCEPT ![id] = "responded"]
+       ELSE /\ st' = [st EXCEPT ![id] = "done"]             \* the task is gone; its entry leaks
+            /\ How(id, "panic-silent")
+            /\ UNCHANGED resp
   /\ Log([a |-> "TaskPanic", id |-> id])
-  /\ UNCHANGED <<phase, cstate, wire, nmsg, nreq, pending, outcome, cancelled>>
+  /\ UNCHANGED <<phase, cstate, wire, nmsg, nreq, pending, outcome, tokens, cancelled>>
+
+\* last step of the wrapper task: lock the cancellation map, remove the entry
+TaskRemove(id) ==
+  /\ Alive /\ Settled /\ st[id] = "responded"
+  /\ st' = [st EXCEPT ![id] = "done"]
+  /\ tokens' = tokens \ {id}
+  /\ Log([a |-> "TaskRemove", id |-> id])
+  /\ UNCHANGED <<phase, cstate, wire, nmsg, nreq, pending, outcome, cancelled, resp, how>>
 
 -----------------------------------------------------------------------------
 InitWith(p) ==
@@ -303,7 +344,7 @@ Next ==
   \/ SrvRecv
   \/ InitDone
   \/ SrvDrain
-  \/ \E id \in Ids : TaskFinish(id) \/ (\E mode \in Panic : TaskPanic(id, mode))
+  \/ \E id \in Ids : TaskRespond(id) \/ (\E mode \in Panic : TaskPanic(id, mode)) \/ TaskRemove(id)
 
 Spec == Init /\ [][Next]_vars
 
@@ -311,14 +352,16 @@ Spec == Init /\ [][Next]_vars
 (* properties *)
 Sent(id) == st[id] # "unseen"
 Running == {id \in Ids : st[id] = "running"}
+Responded == {id \in Ids : st[id] = "responded"}
 
 \* nothing can happen any more on the server side
 ServerIdle == /\ wire = <<>> \/ phase \in {"exited", "dead"}
               /\ phase # "init"
               /\ pending = <<>>
-              /\ (Running = {} \/ phase = "dead")
+              /\ (Running \cup Responded = {} \/ phase = "dead")
 
 TypeOK == /\ phase \in {"pre", "handshake", "init", "ready", "shutdown", "exited", "dead"}
+          /\ CancelDesign \in {"flag", "answer"}
           /\ tokens \subseteq Ids /\ cancelled \subseteq Ids
 
 \* C24: whenever the server has nothing left to do, every request sent has exactly one response
@@ -326,8 +369,9 @@ ExactlyOne == ServerIdle => \A id \in Ids : Sent(id) => Len(resp[id]) = 1
 \* ... never more than one, never one for an id that was not sent
 AtMostOne == \A id \in Ids : Len(resp[id]) <= 1
 NoOrphan == \A id \in Ids : Len(resp[id]) > 0 => Sent(id)
-\* the cancellation map holds exactly the running requests (no leak after a panic)
-NoLeak == tokens = Running
+\* the cancellation map holds exactly the requests whose wrapper task is still there (no leak after a
+\* panic); in the "answer" design `cancel` removes the entry early
+NoLeak == tokens = {id \in Running \cup Responded : CancelDesign = "answer" => id \notin cancelled}
 \* RequestCanceled is only sent for requests the client cancelled
 CancelAnswer == \A id \in Ids : (Len(resp[id]) = 1 /\ resp[id][1] = ErrCancelled) => id \in cancelled
 \* the server keeps serving: it only stops through exit
